@@ -46,6 +46,7 @@ type Scn struct {
 	Outage     [2]int `json:"outage_ms"` // active-check scenarios: upstream 0 refuses during [from,to)
 	MaxFailing int    `json:"max_failing_dials"`
 	Peers      int    `json:"peers_of_upstream0,omitempty"` // 2: upstream 0 dials two addresses (every connection goes to both)
+	V6         bool   `json:"ipv6_upstreams,omitempty"`     // the upstreams are IPv6 literals
 	SlowFail   bool   `json:"slow_fail,omitempty"`          // a failing dial may also fail only after 300 ms (e.g. a handshake that times out), so that dials to one peer overlap
 }
 
@@ -83,6 +84,14 @@ type result struct {
 
 var addrs = []string{"10.0.0.10:80", "10.0.0.11:80"}
 
+// upstream addresses of the scenario (IPv6 literals in the V6 family)
+func addrsOf(sc *Scn) []string {
+	if sc.V6 {
+		return []string{"[2001:db8::10]:80", "[2001:db8::11]:80"}
+	}
+	return addrs
+}
+
 const secondPeer = "10.0.0.12:80" // second dial address of upstream 0 in the multi-peer family
 
 type target struct {
@@ -91,6 +100,7 @@ type target struct {
 }
 
 func targets(sc *Scn) []target {
+	addrs := addrsOf(sc)
 	ts := []target{{addrs[0], 0, 0}, {addrs[1], 1, 0}}
 	if sc.Peers == 2 {
 		ts = append(ts, target{secondPeer, 0, 1})
@@ -153,6 +163,7 @@ func execute(x *explore.Exec, sc *Scn) *result {
 				return cEnd, nil
 			})
 		}
+		addrs := addrsOf(sc)
 		dial0 := []string{addrs[0]}
 		if sc.Peers == 2 {
 			dial0 = append(dial0, secondPeer)
@@ -210,7 +221,7 @@ func execute(x *explore.Exec, sc *Scn) *result {
 		}
 		cancel() // stops the active health checker
 		vtime.Sleep(time.Second)
-		for _, a := range addrs {
+		for _, a := range addrsOf(sc) {
 			res.peers = append(res.peers, []l4proxy.VerifPeerState{st[a]})
 		}
 		if sc.Peers == 2 {
@@ -432,6 +443,22 @@ func check(x *explore.Exec, sc *Scn, r *result) {
 		if c.Err == "" {
 			x.Fail("failed-without-error", "connection %d was never connected to an upstream but Handle returned no error; %s", i, desc())
 		}
+		// it gave up: in every round in which it made no attempt, no upstream was available
+		for j := attempts[i]; ; j++ {
+			tj := c.Arrive + int64(j)*interval
+			if j > 0 && (interval == 0 || int64(j-1)*interval >= tryDur) {
+				break
+			}
+			for u := 0; u < 2; u++ {
+				if available(u, tj+int64(j)) {
+					x.Fail("available-upstream-not-tried", "connection %d made no attempt in retry round %d (%.3fs) and failed with %q although upstream %d was available (reference: failures %v within %dms, active checks down=%v); %s", i, j, float64(tj)/1e9, c.Err, u, fails, sc.FailDurMS, activeDown, desc())
+					return
+				}
+			}
+			if interval == 0 {
+				break
+			}
+		}
 		// it must have kept trying until try_duration elapsed: the give-up time is the first
 		// multiple of try_interval at or after try_duration
 		giveUp := int64(0)
@@ -527,7 +554,13 @@ func availableIgnoringConns(u int, fails [2][]int64, failDur int64, maxFails int
 	return true
 }
 
-func scenarios(tier string, yield func(any) bool) {
+func scenarios(tier string, yield0 func(any) bool) {
+	yield := func(sc *Scn) bool {
+		if only := os.Getenv("VERIF_ONLY"); only != "" && !strings.Contains(string(hm.J(sc)), only) {
+			return true
+		}
+		return yield0(sc)
+	}
 	arrivalSets := [][]int{{0}, {0, 310}, {0, 310, 1070}, {0, 310, 1070, 2130, 2610}, {0, 130}, {0, 130, 4000}}
 	for _, fd := range []int{0, 2000} {
 		for _, mf := range []int{0, 1, 2} {
@@ -589,6 +622,9 @@ func scenarios(tier string, yield func(any) bool) {
 	// active health checks with a scripted outage of upstream 0
 	for _, out := range [][2]int{{500, 2500}, {0, 1200}, {1500, 1600}} {
 		if !yield(&Scn{ActiveMS: 1000, TryDurMS: 0, TryIntMS: 250, Arrivals: []int{200, 700, 1200, 2700, 3200, 4200}, Outage: out}) {
+			return
+		}
+		if !yield(&Scn{ActiveMS: 1000, TryDurMS: 0, TryIntMS: 250, Arrivals: []int{200, 700, 1200, 2700, 3200, 4200}, Outage: out, V6: true}) {
 			return
 		}
 		// the same outages seen by both checkers: proxied dials fail during the outage (their
